@@ -1,14 +1,27 @@
 package main
 
-import "go/token"
+import (
+	"fmt"
+	"go/token"
+)
 
 // Relaxed-real float mode: every float operation yields a fresh real constrained by the
 // IEEE-754 correct-rounding bound |r - exact| <= 2^-53 * |exact| (normal range).
 
 const relEps = "(/ 1.0 9007199254740992.0)" // 2^-53
 
+var roundedCache = map[int]*Term{}
+
 func (e *Exec) rounded(st *State, exact *Term) *Term {
-	r := e.fresh("fl", RealSort)
+	if exact.IsConst() {
+		return exact
+	}
+	// floating-point operations are functions: the same exact operand term always rounds to the same value
+	r, ok := roundedCache[exact.ID]
+	if !ok {
+		r = e.fresh("fl", RealSort)
+		roundedCache[exact.ID] = r
+	}
 	eps := RealConst(relEps)
 	absx := Ite(App("<", BoolSort, exact, RealConst("0.0")), App("-", RealSort, exact), exact)
 	bound := App("*", RealSort, eps, absx)
@@ -43,6 +56,13 @@ func (e *Exec) realBinop(st *State, op token.Token, a, b *Term) *Term {
 // int -> float: exact for |x| < 2^53 (harness states this), else rounded
 func (e *Exec) intToReal(st *State, t *Term, signed bool) *Term {
 	var i *Term
+	if t.Sort.K == SInt {
+		if t.IsConst() {
+			return realOfFloat(float64(int64(t.U)))
+		}
+		// exact for |x| < 2^53 (harnesses in this mode bound their integers accordingly)
+		return App("to_real", RealSort, t)
+	}
 	if t.IsConst() {
 		if signed {
 			return realOfFloat(float64(t.SVal()))
@@ -60,34 +80,60 @@ func (e *Exec) intToReal(st *State, t *Term, signed bool) *Term {
 
 // float -> int (truncation toward zero)
 func (e *Exec) realToInt(st *State, t *Term, w int, signed bool) *Term {
-	fl := App("to_int", IntSort, t) // floor
-	isInt := App("is_int", BoolSort, t)
-	neg := App("<", BoolSort, t, RealConst("0.0"))
-	tr := Ite(And(neg, Not(isInt)), App("+", IntSort, fl, IntConst(1)), fl)
+	var tr *Term
+	switch {
+	case t.Op == "to_real":
+		tr = t.Args[0] // already integral
+	case t.Op == "ite":
+		a := e.realToInt(st, t.Args[1], w, signed)
+		b := e.realToInt(st, t.Args[2], w, signed)
+		return Ite(t.Args[0], a, b)
+	case t.Op == "realconst" && (t.S == "0.0" || t.S == "1.0"):
+		tr = IntConst(map[string]int64{"0.0": 0, "1.0": 1}[t.S])
+	default:
+		tr = e.roundInt(st, "RTZ", t)
+	}
+	if mathInts {
+		return tr
+	}
 	// two's complement conversion: int2bv works modulo 2^w
 	return mk("int2bv", BV(w), 0, 0, "", tr)
 }
 
-func (e *Exec) realRound(st *State, mode string, a *Term) *Term {
-	fl := App("to_real", RealSort, App("to_int", IntSort, a))
-	isInt := App("is_int", BoolSort, a)
-	one := RealConst("1.0")
-	switch mode {
-	case "RTN":
-		return fl
-	case "RTP":
-		return Ite(isInt, a, App("+", RealSort, fl, one))
-	case "RTZ":
-		neg := App("<", BoolSort, a, RealConst("0.0"))
-		return Ite(And(neg, Not(isInt)), App("+", RealSort, fl, one), fl)
-	case "RNA":
-		// round half away from zero
-		half := RealConst("0.5")
-		neg := App("<", BoolSort, a, RealConst("0.0"))
-		up := App("to_real", RealSort, App("to_int", IntSort, App("+", RealSort, a, half)))
-		dn := App("-", RealSort, App("to_real", RealSort, App("to_int", IntSort, App("+", RealSort, App("-", RealSort, a), half))))
-		return Ite(neg, dn, up)
+var roundIntCache = map[string]*Term{}
+
+// roundInt returns a fresh Int k constrained (linearly) to be the rounding of real a in the given mode.
+func (e *Exec) roundInt(st *State, mode string, a *Term) *Term {
+	if a.Op == "to_real" {
+		return a.Args[0]
 	}
-	fail("realRound mode %s", mode)
-	return nil
+	key := mode + ":" + fmt.Sprint(a.ID)
+	k, ok := roundIntCache[key]
+	if !ok {
+		k = e.fresh("round", IntSort)
+		roundIntCache[key] = k
+	}
+	kr := App("to_real", RealSort, k)
+	lt := func(x, y *Term) *Term { return App("<", BoolSort, x, y) }
+	le := func(x, y *Term) *Term { return App("<=", BoolSort, x, y) }
+	plus := func(x *Term, c string) *Term { return App("+", RealSort, x, RealConst(c)) }
+	minus := func(x *Term, c string) *Term { return App("-", RealSort, x, RealConst(c)) }
+	neg := lt(a, RealConst("0.0"))
+	switch mode {
+	case "RTN": // floor: k <= a < k+1
+		st.Assume(And(le(kr, a), lt(a, plus(kr, "1.0"))))
+	case "RTP": // ceil: k-1 < a <= k
+		st.Assume(And(lt(minus(kr, "1.0"), a), le(a, kr)))
+	case "RTZ": // trunc
+		st.Assume(Ite(neg, And(lt(minus(kr, "1.0"), a), le(a, kr)), And(le(kr, a), lt(a, plus(kr, "1.0")))))
+	case "RNA": // round half away from zero
+		st.Assume(Ite(neg, And(lt(minus(kr, "0.5"), a), le(a, plus(kr, "0.5"))), And(le(minus(kr, "0.5"), a), lt(a, plus(kr, "0.5")))))
+	default:
+		fail("roundInt mode %s", mode)
+	}
+	return k
+}
+
+func (e *Exec) realRound(st *State, mode string, a *Term) *Term {
+	return App("to_real", RealSort, e.roundInt(st, mode, a))
 }
